@@ -78,7 +78,7 @@ Proof. intros A B x f e H. destruct x as [v| |]; simpl in H; try discriminate. e
 
 Section ErrInv.
   Variable src : text.
-  Variables awc pe : bool.
+  Variables awc pe iw : bool.
   Variable re_bad : list nat.
   Variable fx : fixes.
   Hypothesis Hfix : fix_target_span fx = true.
@@ -360,7 +360,7 @@ Section ErrInv.
   Qed.
 
   Lemma parse_start_states_err : forall st off re e, bnd src off ->
-    parse_start_states pe fx st off re = RErr e -> ewf e.
+    parse_start_states pe iw fx st off re = RErr e -> ewf e.
   Proof.
     intros st off re e Hb H. unfold parse_start_states in H.
     destruct (negb (starts_with [c_lt] re)).
@@ -376,7 +376,7 @@ Section ErrInv.
 
   Lemma parse_rule_wf : forall i st errs,
     bnd src i -> inv src st -> errs_wf errs ->
-    twf (fun _ => True) (parse_rule src pe re_bad fx i st errs).
+    twf (fun _ => True) (parse_rule src pe iw re_bad fx i st errs).
   Proof.
     intros i st errs Hi Hst He. unfold parse_rule.
     apply twf_lbind_lift. intros ll _. apply twf_lbind_lift. intros line0 Hl0. cbv zeta.
@@ -426,7 +426,7 @@ Section ErrInv.
 
   Lemma parse_rules_wf : forall fuel i st errs,
     inv src st -> errs_wf errs ->
-    twf (fun _ => True) (parse_rules src awc pe re_bad fx fuel i st errs).
+    twf (fun _ => True) (parse_rules src awc pe iw re_bad fx fuel i st errs).
   Proof.
     induction fuel as [|fuel IH]; intros i st errs Hst He; [exact I|].
     cbn [parse_rules].
@@ -441,14 +441,14 @@ Section ErrInv.
     - destruct (i1 =? src_len src); [cbn [twf]; split; [exact I|exact He]|].
       apply twf_lbind_lift. intros sep _. destruct sep as [j'|]; [cbn [twf]; split; [exact I|exact He]|].
       pose proof (parse_rule_wf i1 st errs Hb Hst He) as Hr.
-      destruct (parse_rule src pe re_bad fx i1 st errs) as [[i2 st2] errs2|errs2 e| |] eqn:Er;
+      destruct (parse_rule src pe iw re_bad fx i1 st errs) as [[i2 st2] errs2|errs2 e| |] eqn:Er;
         cbn [twf] in Hr |- *; [|exact Hr|exact I|exact I].
       apply IH; [|apply Hr]. eapply parse_rule_inv; eauto.
   Qed.
 
   (* ---- parse ---- *)
   Lemma parse_wf : forall fuel start errs,
-    parse src awc pe re_bad fx fuel start = Done (PErrs errs) -> errs_wf errs.
+    parse src awc pe iw re_bad fx fuel start = Done (PErrs errs) -> errs_wf errs.
   Proof.
     intros fuel start errs H. unfold parse in H.
     assert (Hf : forall st e, errs_wf e -> Done (finish st e) = Done (PErrs errs) -> errs_wf errs).
@@ -458,7 +458,7 @@ Section ErrInv.
       try discriminate; cbn [twf snd] in Hd.
     - destruct Hd as [Hst1 He1].
       pose proof (parse_rules_wf fuel i1 st1 errs1 Hst1 He1) as Hr.
-      destruct (parse_rules src awc pe re_bad fx fuel i1 st1 errs1) as [[i2 st2] errs2|errs2 e2| |];
+      destruct (parse_rules src awc pe iw re_bad fx fuel i1 st1 errs1) as [[i2 st2] errs2|errs2 e2| |];
         try discriminate; cbn [twf] in Hr.
       + destruct Hr as [_ He2]. apply obind_ok in H. destruct H as [la [Hla H]]. destruct la as [j|].
         * apply obind_ok in H. destruct H as [k [_ H]].
@@ -475,9 +475,9 @@ End ErrInv.
 
 Lemma lex_error_spans_wellformed : lex_error_spans_wellformed_stmt.
 Proof.
-  intros fx src pos awc pe re_bad errs Hh Ht H. unfold lex_from_str in H.
+  intros fx src pos awc pe iw re_bad errs Hh Ht H. unfold lex_from_str in H.
   apply obind_ok in H. destruct H as [s [_ H]]. rewrite Hh in H.
-  apply (parse_wf src awc pe re_bad fx Ht) in H.
+  apply (parse_wf src awc pe iw re_bad fx Ht) in H.
   eapply Forall_impl; [|exact H]. intros e He.
   eapply Forall_impl; [|exact He]. intros sp Hsp. apply wfs_wf_span. exact Hsp.
 Qed.
@@ -488,7 +488,7 @@ Ltac not_in_list H := repeat (destruct H as [H|H]; [discriminate H|]); exact H.
 
 Lemma lex_error_spans_refuted : lex_error_spans_refuted_stmt.
 Proof.
-  exists errspan_src, 11, false, false, [].
+  exists errspan_src, 11, false, false, false, [].
   eexists. split; [|split].
   - unfold boundary. vm_compute. in_list.
   - vm_compute. reflexivity.
@@ -498,7 +498,7 @@ Qed.
 
 Lemma lex_error_spans_target_refuted : lex_error_spans_target_refuted_stmt.
 Proof.
-  exists errspan_target_src, false, false, [].
+  exists errspan_target_src, false, false, false, [].
   eexists. split.
   - vm_compute. reflexivity.
   - intros H. apply Forall_inv in H. cbn [e_spans] in H. apply Forall_inv_tail in H. apply Forall_inv in H.
